@@ -314,7 +314,7 @@ pub fn universe_texts(u: &[Version]) -> Vec<String> {
 }
 
 fn c04_fixture_check(tier: &str, u: &[Version]) -> Result<Value, String> {
-    let path = format!("{}/fixtures/npm-7.6.2/compare_{}.json", VERIF_DIR, if tier == "thorough" { "thorough" } else { "quick" });
+    let path = format!("{}/fixtures/npm-7.6.2/compare_{}.json", home_dir(), if tier == "thorough" { "thorough" } else { "quick" });
     let txt = std::fs::read_to_string(&path).map_err(|e| format!("{}: {}", path, e))?;
     let fx: Value = serde_json::from_str(&txt).map_err(|e| format!("{}: {}", path, e))?;
     let fv: Vec<String> = fx["versions"].as_array().ok_or("versions")?.iter().map(|x| x.as_str().unwrap_or("").to_string()).collect();
@@ -509,7 +509,7 @@ pub fn check_c16_pair(a: &Version, b: &Version, node: Option<u8>, sink: &Sink) {
 pub fn run_c16(_tier: &str, sink: &Sink) -> DOut {
     let u = c16_universe();
     let n = u.len();
-    let path = format!("{}/fixtures/npm-7.6.2/diff.json", VERIF_DIR);
+    let path = format!("{}/fixtures/npm-7.6.2/diff.json", home_dir());
     let fx: Value = match std::fs::read_to_string(&path).ok().and_then(|t| serde_json::from_str(&t).ok()) {
         Some(v) => v,
         None => {
@@ -929,7 +929,7 @@ pub fn replay(prop: &str, case: &Value, sink: &Sink) {
             let node = (|| {
                 let i = texts.iter().position(|t| *t == vtext_full(&a))?;
                 let j = texts.iter().position(|t| *t == vtext_full(&b))?;
-                let fx: Value = serde_json::from_str(&std::fs::read_to_string(format!("{}/fixtures/npm-7.6.2/diff.json", VERIF_DIR)).ok()?).ok()?;
+                let fx: Value = serde_json::from_str(&std::fs::read_to_string(format!("{}/fixtures/npm-7.6.2/diff.json", home_dir())).ok()?).ok()?;
                 Some(fx["rows"][i].as_str()?.as_bytes()[j])
             })();
             check_c16_pair(&a, &b, node, sink)
